@@ -33,33 +33,89 @@ Theorem C05_attr_roundtrip : forall a : attrs,
 Proof. exact attr_roundtrip. Qed.
 Print Assumptions C05_attr_roundtrip.
 
-(* wiki_line_roundtrip: a tag written at any level >= 1 by _write_tag_entry/_format_props_and_desc/
-   _flush_current_tag is read back (strip, nowiki removal, level, tag-name expression, {..} and [..]
-   sections, attribute grammar) as the same level, name, attributes and description.
-   name_ok: non-empty, no outer blanks, none of [ ] { } LF < ' /, not ending in #.
-   desc_ok: absent, or non-empty, no outer blanks, none of [ ] { } LF, no '<' followed by n or /.
-   The last hypothesis is the reader's own reserved-word test: the row must not contain
-   'extend here' or the zero-width-space entity. *)
+(* wiki_line_roundtrip for the code AS IT NOW IS (repairs of C05-F1 and C05-F3: fixed = true).
+   A tag written at any level >= 1 by _write_tag_entry/_format_props_and_desc/_flush_current_tag is read
+   back (strip, nowiki removal, level, tag-name expression, {..} and [..] sections, attribute grammar)
+   as the same level, name, attributes and description, for EVERY description the XML reader can
+   deliver: [xml_read_desc true text] for an arbitrary element text.  Compared with the statement for
+   the unrepaired code below, two hypotheses are gone because the repairs make them unnecessary:
+     - no outer blanks / non-empty description: now an invariant of loaded schemas (C05_xml_desc_normal);
+     - 'extend here' absent from the row: now only the NAME must not contain the words.
+   What remains are true limits of the MediaWiki format, not of this proof:
+     - name_ok: non-empty, no outer blanks, none of [ ] { } LF < ' /, not ending in # (the '#' layout is
+       covered by the correspondence run only);
+     - desc_text_ok: none of [ ] { } LF (outside the schema text class anyway) and no '<' followed by
+       'n' or '/': the reader deletes every <nowiki> / </nowiki> it finds, also inside a description
+       (C05_desc_nowiki_still_removed; the rest of finding C05-F3, not repaired, see the report);
+     - the zero-width-space entity is absent from the row (the reader deletes it before locating the
+       name; a limit of the proof only -- the correspondence run covers rows that contain it). *)
 Theorem C05_wiki_line_roundtrip :
-  forall (disallowed : str -> bool) (lvl : nat) (n : str) (a : attrs) (d : option str) (line : str),
+  forall (disallowed : str -> bool) (lvl : nat) (n : str) (a : attrs) (text line : str),
+  name_ok n = true -> desc_text_ok (xml_read_desc true text) = true ->
+  attr_ok a = true -> wiki_text_ok (format_tag_attributes disallowed a) = true ->
+  contains s_extend_here n = false ->
+  write_tag_line disallowed n (S lvl) a (xml_read_desc true text) = Some line ->
+  contains s_zw (remove_nowiki line) = false ->
+  read_tag_line true line
+  = Ok (Some (mkParsed false (S lvl) n (filter (fun kv => negb (disallowed (fst kv))) a)
+                       (xml_read_desc true text))).
+Proof. exact wiki_line_roundtrip_loaded. Qed.
+Print Assumptions C05_wiki_line_roundtrip.
+
+(* the invariant the repaired XML reader establishes (it agrees with the strip of the MediaWiki and TSV
+   readers, so the three formats deliver the same description) *)
+Theorem C05_xml_desc_normal : forall text d,
+  xml_read_desc true text = Some d -> nonempty d = true /\ no_outer_ws d = true.
+Proof. exact xml_desc_normal. Qed.
+Print Assumptions C05_xml_desc_normal.
+
+(* the same line round trip for both versions of the reader, with the description class as an explicit
+   hypothesis (desc_ok adds: non-empty, no outer blanks) and the version's own reserved-word test *)
+Theorem C05_wiki_line_roundtrip_both :
+  forall (fixed : bool) (disallowed : str -> bool) (lvl : nat) (n : str) (a : attrs) (d : option str) (line : str),
   name_ok n = true -> desc_ok d = true ->
   attr_ok a = true -> wiki_text_ok (format_tag_attributes disallowed a) = true ->
   write_tag_line disallowed n (S lvl) a d = Some line ->
-  row_free_of_reserved line = true ->
-  read_tag_line line
+  row_free_of_reserved fixed n line = true ->
+  read_tag_line fixed line
   = Ok (Some (mkParsed false (S lvl) n (filter (fun kv => negb (disallowed (fst kv))) a) d)).
 Proof. exact wiki_line_roundtrip. Qed.
-Print Assumptions C05_wiki_line_roundtrip.
+Print Assumptions C05_wiki_line_roundtrip_both.
 
-(* The same statement over the text class that schema compliance allows in descriptions (printable
-   ASCII except brackets/braces, or non-ASCII) is FALSE of the faithful model: a description with an
-   outer blank comes back stripped.  Replayed on the implementation this is finding C05-F1; the
-   reserved-word witnesses below are finding C05-F3. *)
+(* RECORD OF THE REPAIRED DEFECTS (fixed = false, the reader before fix-F1/fix-F3): over the text class
+   that schema compliance allows in descriptions the round trip was FALSE -- a description with an outer
+   blank came back stripped while the XML reader kept it (C05-F1), and 'extend here' in a description
+   made the load fail (C05-F3, C05_desc_extend_here_refused below). *)
 Theorem C05_wiki_line_roundtrip_schema_class_refuted :
   exists d, schema_text_ok d = true /\ d <> [] /\
-            read_tag_line (line_of d) <> Ok (Some (mkParsed false 1 n_zork [] (Some d))).
+            read_tag_line false (line_of d) <> Ok (Some (mkParsed false 1 n_zork [] (Some d))).
 Proof. exact wiki_line_roundtrip_schema_class_refuted. Qed.
 Print Assumptions C05_wiki_line_roundtrip_schema_class_refuted.
+
+Theorem C05_xml_desc_not_normal_before_refuted :
+  exists text d, xml_read_desc false text = Some d /\ no_outer_ws d = false.
+Proof. exact xml_desc_not_normal_before. Qed.
+Print Assumptions C05_xml_desc_not_normal_before_refuted.
+
+(* C05-F4, repaired: a unit class row written without its properties (a standard unit class that holds
+   library units, unmerged save) is read back as a bare name and, once tagged with the library, is exactly
+   the placeholder HedSchemaUnitClassSection._check_if_duplicate accepts -- for every content of the entry *)
+Theorem C05_tsv_stub_row : forall strip_lib n a d library,
+  endswith s_dash_hash n = false ->
+  exists a',
+    tsv_read_row (tsv_write_entry_row true strip_lib false n a d) = Ok (n, a', None)
+    /\ unit_class_stub (tag_with_library library a') = true.
+Proof. exact tsv_stub_row_fixed. Qed.
+Print Assumptions C05_tsv_stub_row.
+
+(* record of the repaired defect: the writer that ignored include_props *)
+Theorem C05_tsv_stub_row_unfixed_refuted :
+  exists n a library,
+    attr_ok a = true /\ endswith s_dash_hash n = false /\
+    exists a', tsv_read_row (tsv_write_entry_row false true false n a None) = Ok (n, a', None)
+               /\ unit_class_stub (tag_with_library library a') = false.
+Proof. exact tsv_stub_row_unfixed_refuted. Qed.
+Print Assumptions C05_tsv_stub_row_unfixed_refuted.
 
 (* tsv_row_roundtrip: a row of the TSV tag table (name, attributes, description columns; the entry has
    no hedId, which travels in its own column) is read back as the same name, the attributes the TSV
@@ -128,7 +184,7 @@ Example C05_nonvacuous_wiki :
   name_ok ex_name = true /\ desc_ok (Some ex_desc) = true /\ attr_ok ex_attrs = true
   /\ wiki_text_ok (format_tag_attributes no_dis ex_attrs) = true
   /\ write_tag_line no_dis ex_name 1 ex_attrs (Some ex_desc) = Some ex_line
-  /\ row_free_of_reserved ex_line = true.
+  /\ row_free_of_reserved false ex_name ex_line = true /\ row_free_of_reserved true ex_name ex_line = true.
 Proof. exact ex_hyps. Qed.
 
 Example C05_nonvacuous_attr :
@@ -159,11 +215,23 @@ Proof. exact attr_empty_piece_rejected. Qed.
 Example C05_attr_bool_then_value_raises : parse_attribute_string s_a_ab = Exn TypeError.
 Proof. exact attr_bool_then_value_raises. Qed.
 
+(* records for the unrepaired reader (fixed = false) and the same witnesses on the repaired one *)
 Example C05_desc_extend_here_refused :
-  schema_text_ok d_extend = true /\ read_tag_line (line_of d_extend) = Exn HedFileError.
+  schema_text_ok d_extend = true /\ read_tag_line false (line_of d_extend) = Exn HedFileError.
 Proof. exact desc_extend_here_refused. Qed.
 
-Example C05_desc_nowiki_removed :
+Example C05_desc_extend_here_after_fix :
+  read_tag_line true (line_of d_extend) = Ok (Some (mkParsed false 1 n_zork [] (Some d_extend))).
+Proof. exact desc_extend_here_after_fix. Qed.
+
+Example C05_desc_outer_blank_after_fix :
+  xml_read_desc true d_lead = Some d_lead_stripped /\
+  read_tag_line true (match write_tag_line no_dis n_zork 1 [] (xml_read_desc true d_lead) with Some l => l | None => [] end)
+  = Ok (Some (mkParsed false 1 n_zork [] (xml_read_desc true d_lead))).
+Proof. exact desc_outer_blank_after_fix. Qed.
+
+(* still true of the repaired reader: the unrepaired rest of C05-F3 *)
+Example C05_desc_nowiki_still_removed :
   schema_text_ok d_nowiki = true /\
-  read_tag_line (line_of d_nowiki) = Ok (Some (mkParsed false 1 n_zork [] (Some d_nowiki_gone))).
-Proof. exact desc_nowiki_removed. Qed.
+  read_tag_line true (line_of d_nowiki) = Ok (Some (mkParsed false 1 n_zork [] (Some d_nowiki_gone))).
+Proof. exact desc_nowiki_still_removed. Qed.
